@@ -48,6 +48,12 @@ def check(run):
         return run.finish('proof')
     n = 4000 if thorough else 400
     models = [docgen.gen(rng, ntempl=rng.choice([0, 1, 1, 2, 3, 4] + ([5, 6, 8] if thorough else []))) for _ in range(n)]
+    for M in models[::7]:
+        # the order of a location's two labels is free in the XML: sometimes the rate comes first
+        for T in M.templates:
+            for l in T['locs']:
+                if l['inv'] is not None and l['rate'] is not None:
+                    l['rate_first'] = True
     out = subprocess.run([drv], input='\n'.join(model_sx(M) for M in models) + '\n', stdout=subprocess.PIPE, universal_newlines=True).stdout.split('\n')
     j = vlib.Job()
     xmls = [docgen.render_xml(M) for M in models]
@@ -66,12 +72,17 @@ def check(run):
             continue
         errs = [l for l in c['cmds'][1][2] if l.startswith('error')]
         if errs:
-            run.tie_broken('a generated well-formed model is rejected', dict(xml=x[:1500], errors=errs[:3]))
+            if any(l.get('rate_first') for T in M.templates for l in T['locs']) and all('location' in e for e in errs):
+                run.fail('a location whose rate label precedes its invariant label is built with the two swapped (and then rejected by the type checker): ' + errs[0][:120],
+                         dict(xml=x, errors=errs[:3]), shape='mirror:location-label-order')
+            else:
+                run.tie_broken('a generated well-formed model is rejected', dict(xml=x[:1500], errors=errs[:3]))
             continue
         got = docgen.parse_dump(c['cmds'][2][2])
         d = docgen.diff(exp, got)
         if d:
-            run.fail('document differs from the XML: ' + d, dict(xml=x, difference=d), shape='mirror:' + re.sub(r'[0-9]+', 'N', d)[:60])
+            swapped = 'location (name' in d and any(l.get('rate_first') for T in M.templates for l in T['locs'])
+            run.fail('document differs from the XML: ' + d, dict(xml=x, difference=d), shape='mirror:location-label-order' if swapped else 'mirror:' + re.sub(r'[0-9]+', 'N', d)[:60])
         invf = [l for l in c['cmds'][3][2] if l.startswith('INVFAIL')]
         if invf:
             run.fail('structural invariant broken after parsing a well-formed model: ' + invf[0], dict(xml=x, fails=invf[:3]), shape='inv:' + re.sub(r'[0-9]+', 'N', invf[0])[:50])
